@@ -149,6 +149,25 @@ def gen_stream(rng, n_items, length, weighted=True):
 
 
 # --------------------------------------------------------------------------- Bloom
+def gen_pre(rng, n_slots, n_items):
+    """A recycled sketch: with probability 0.35 every slot is first fed a few items and then clear()ed, so
+    that the recorded operations run on sketches that have been used before (clear() must give back the
+    empty sketch: the model starts from the empty one)."""
+    if rng.random() >= 0.35:
+        return []
+    return [[rng.randrange(n_slots), rng.randrange(max(1, n_items)), rng.choice([1, 1, 2, 3])] for _ in range(rng.randint(1, 6))]
+
+
+def apply_pre(c, slots, item):
+    pre = c.get("pre") or []
+    if not pre:
+        return
+    for sl, x, cnt in pre:
+        slots[sl].add(item(x), cnt)
+    for s_ in slots:
+        s_.clear()
+
+
 def gen_bloom(rng):
     m = rng.choice([1, 2, 3, 5, 8, 13, 31, 64, 65, 100, 128, 130])
     k = rng.choice([1, 2, 3, 5, 7, None])
@@ -174,7 +193,7 @@ def gen_bloom(rng):
         for x in range(len(ITEMS)):
             if rng.random() < 0.5 or x < n_items:
                 ops.append(["query", sl, x])
-    return dict(m=m, k=k, seed=seed, ops=ops)
+    return dict(m=m, k=k, seed=seed, ops=ops, pre=gen_pre(rng, 3, n_items))
 
 
 def _bloom_state(bf):
@@ -188,6 +207,7 @@ def impl_bloom(c):
     import happysimulator.sketching.bloom_filter as mod
     mk = lambda: mod.BloomFilter(size_bits=c["m"], num_hashes=c["k"], seed=c["seed"])  # noqa: E731
     slots = [mk() for _ in range(3)]
+    apply_pre(c, slots, obj)
     streams = [[] for _ in range(3)]
     obs, homo = [], []
     for o in c["ops"]:
@@ -300,7 +320,7 @@ def slot_schedule(rng, n_items, weighted=True, max_len=20, extra=3, n_slots=3, q
 def gen_cms(rng):
     n_items = rng.randint(1, len(ITEMS))
     return dict(w=rng.choice([1, 2, 3, 5, 8]), d=rng.choice([1, 2, 3, 4]), seed=rng.choice([None, 0, 7]),
-                ops=slot_schedule(rng, n_items, query="est"))
+                ops=slot_schedule(rng, n_items, query="est"), pre=gen_pre(rng, 3, n_items))
 
 
 def _cms_state(s):
@@ -311,6 +331,7 @@ def impl_cms(c):
     import happysimulator.sketching.count_min_sketch as mod
     mk = lambda: mod.CountMinSketch(width=c["w"], depth=c["d"], seed=c["seed"])  # noqa: E731
     slots = [mk() for _ in range(3)]
+    apply_pre(c, slots, obj)
     streams = [[] for _ in range(3)]
     obs, homo = [], []
     for o in c["ops"]:
@@ -407,7 +428,7 @@ def gen_hll(rng):
         else:
             ops.append(["merge", rng.randrange(4), rng.randrange(4)])
     slot_seed = [0, rng.choice([0, 1]), 0, 2]      # slot 3 is built with a different seed
-    return dict(p=p, slot_seed=slot_seed, ops=ops)
+    return dict(p=p, slot_seed=slot_seed, ops=ops, pre=gen_pre(rng, 4, n_items))
 
 
 def _hll_state(s):
@@ -418,6 +439,7 @@ def impl_hll(c):
     from happysimulator.sketching.hyperloglog import HyperLogLog
     mk = lambda sl: HyperLogLog(precision=c["p"], seed=SEEDS[c["slot_seed"][sl]])  # noqa: E731
     slots = [mk(i) for i in range(4)]
+    apply_pre(c, slots, hobj)
     streams = [[] for _ in range(4)]
     obs, homo = [], []
     for o in c["ops"]:
@@ -473,7 +495,8 @@ def encode_hll(c, o):
 # --------------------------------------------------------------------------- TopK
 def gen_topk(rng):
     n_items = rng.randint(1, len(ITEMS))
-    return dict(k=rng.choice([1, 2, 3, 4, 6]), ops=slot_schedule(rng, n_items, max_len=30, query="est"))
+    return dict(k=rng.choice([1, 2, 3, 4, 6]), ops=slot_schedule(rng, n_items, max_len=30, query="est"),
+                pre=gen_pre(rng, 3, n_items))
 
 
 def _topk_state(s):
@@ -483,6 +506,7 @@ def _topk_state(s):
 def impl_topk(c):
     from happysimulator.sketching.topk import TopK
     slots = [TopK(k=c["k"]) for _ in range(3)]
+    apply_pre(c, slots, obj)
     obs = []
     for o in c["ops"]:
         raised, ee = False, [0, 0]
@@ -703,7 +727,9 @@ def gen_merkle(rng):
         else:
             ops.append(["diff", t, 1 - t] if rng.random() < 0.9 else ["diff", t, t])
     ops.append(["diff", 0, 1])
-    return dict(ops=ops)
+    # boxed: every value is stored as a one-element list (a mutable record); an update of an existing key
+    # then mutates the stored record in place and writes the same object back
+    return dict(ops=ops, boxed=rng.random() < 0.4)
 
 
 def impl_merkle(c):
@@ -712,13 +738,21 @@ def impl_merkle(c):
     ref = {0: {}, 1: {}}
     obs = []
     ki = lambda s: int(s[1:])  # noqa: E731
+    boxed = bool(c.get("boxed"))
+    box = (lambda v: [mval(v)]) if boxed else mval
+    unbox = (lambda v: v[0] if isinstance(v, list) else v) if boxed else (lambda v: v)
     for o in c["ops"]:
         ranges, same = [], False
         if o[0] == "build":
-            trees[o[1]] = MerkleTree.build({mkey(k): mval(v) for k, v in o[2]})
+            trees[o[1]] = MerkleTree.build({mkey(k): box(v) for k, v in o[2]})
             ref[o[1]] = {k: v for k, v in o[2]}
         elif o[0] == "update":
-            trees[o[1]].update(mkey(o[2]), mval(o[3]))
+            cur = trees[o[1]].get(mkey(o[2])) if boxed and o[2] in ref[o[1]] else None
+            if isinstance(cur, list):
+                cur[0] = mval(o[3])                  # the stored record, changed in place and written back
+                trees[o[1]].update(mkey(o[2]), cur)
+            else:
+                trees[o[1]].update(mkey(o[2]), box(o[3]))
             ref[o[1]][o[2]] = o[3]
         elif o[0] == "remove":
             existed = trees[o[1]].remove(mkey(o[2]))
@@ -735,9 +769,10 @@ def impl_merkle(c):
                         raise AssertionError("KeyRange.contains")
         t = trees[o[1]]
         if t.size != len(ref[o[1]]) or t.keys() != [mkey(k) for k in sorted(ref[o[1]])] or any(
-                t.get(mkey(k)) != (mval(ref[o[1]][k]) if k in ref[o[1]] else None) for k in range(12)):
+                (unbox(t.get(mkey(k))) if k in ref[o[1]] else t.get(mkey(k))) != (mval(ref[o[1]][k]) if k in ref[o[1]] else None)
+                for k in range(12)):
             raise AssertionError("size/keys/get disagree with the map")
-        obs.append([[[ki(k), mcode(v)] for k, v in t.items()], ranges, same])
+        obs.append([[[ki(k), mcode(unbox(v))] for k, v in t.items()], ranges, same])
     return dict(obs=obs)
 
 
